@@ -29,12 +29,26 @@ func genC18Steps(r *Rng, stack []mwSpec, n int) []mwStep {
 		case 5, 6, 7:
 			steps = append(steps, mwStep{Dir: "c", C: &mocrelay.ClientEventMsg{Event: mk(pick(r, ids))}})
 		case 8:
-			steps = append(steps, mwStep{Dir: "s", S: mocrelay.NewServerEventMsg(pick(r, subs), mk(pick(r, ids)))})
+			if r.P(50) {
+				// the downstream handler's verdict on an event id of the alphabet: accepted, or refused with or without
+				// a machine-readable prefix — the server-to-client direction must leave the windows alone
+				steps = append(steps, mwStep{Dir: "s", S: mocrelay.NewServerOKMsg(pick(r, ids), r.P(40),
+					pick(r, []string{"", "error: ", "blocked: ", "duplicate: ", "rate-limited: "}), pick(r, []string{"", "x"}))})
+			} else {
+				steps = append(steps, mwStep{Dir: "s", S: mocrelay.NewServerEventMsg(pick(r, subs), mk(pick(r, ids)))})
+			}
 		default:
 			if r.Bool() {
 				steps = append(steps, mwStep{Dir: "c", C: &mocrelay.ClientCountMsg{SubscriptionID: pick(r, subs), ReqFilters: []*mocrelay.ReqFilter{{}}}})
 			} else {
-				steps = append(steps, mwStep{Dir: "s", S: mocrelay.NewServerClosedMsg(pick(r, subs), "", "x")})
+				switch r.Intn(4) {
+				case 0:
+					steps = append(steps, mwStep{Dir: "s", S: mocrelay.NewServerEOSEMsg(pick(r, subs))})
+				case 1:
+					steps = append(steps, mwStep{Dir: "s", S: mocrelay.NewServerCountMsg(pick(r, subs), 3, nil)})
+				default:
+					steps = append(steps, mwStep{Dir: "s", S: mocrelay.NewServerClosedMsg(pick(r, subs), "", "x")})
+				}
 			}
 		}
 	}
